@@ -24,6 +24,8 @@ CHECKS = {
          "Held on explored histories mixing style API calls, styled content, lists, notes, saves and reopen; ids resolved by an independent reader."),
  "C14": ("exploration", "reference resolver (visited-set walk, first definer wins) compared per formatting element with GetStyleWithInheritance/ApplyStyleToXML; registry snapshot, Clone alias and scribble monitors; crash monitor for non-termination", "3.3, 4/C14",
          "Held on generated registries: every element x definer depth 0..3 enumerated, random basedOn graphs with cycles, self-loops and missing parents; all ids resolved and compared with the reference; registry unchanged; clones independent."),
+ "C16": ("exploration", "reference semantics evaluated on the generator's template AST, compared line by line with the paragraphs of RenderToDocument/RenderTemplateToDocument; failing cases delta-debugged on AST and data to a minimal case that names the finding", "4/C16",
+         "Held on generated template/data pairs over the documented grammar (variables, if/else, each over scalars and maps with this/@index/@first/@last, nested each, blocks with inheritance, image placeholders, hostile literals) with directive-like, multi-line, non-string, empty and missing data."),
 }
 PENDING = {}
 ALL = ["C%02d" % i for i in range(1, 21)]
